@@ -575,6 +575,7 @@ fn evaluate_stub() -> Eval {
         hash_seed: 0,
         reparse: vec![],
         run_static: false,
+        static_first: false,
         inspect: None,
         max_steps: 1,
         continue_after_error: false,
